@@ -2,7 +2,7 @@
 \* constant-level laws, evaluated as ASSUMEs: render . parse = id on EVERY text up to N over a small alphabet
 EXTENDS PkgList
 CONSTANT N
-Alphabet == {SP, 97, HASH, LF, 42}
+Alphabet == {SP, 160, 97, HASH, LF, 42}
 Texts == UNION {[1..n -> Alphabet] : n \in 0..N}
 RenderParse == \A t \in Texts : LET ls == ParseText(t) IN RenderLines(ls) = t /\ WFList(ls)
 \* with CR LF endings too
